@@ -192,8 +192,15 @@ func (omr objMeshReading) toMesh() ObjMesh {
 	}
 }
 
+// maxLineLength bounds the length of a single line of an OBJ file. The format
+// itself has no limit (comments, group and material names can be arbitrarily
+// long); bufio.Scanner's default of 64 KiB made ReadMesh fail with "token too
+// long" on any file that has a longer line.
+const maxLineLength = 1 << 30
+
 func ReadMesh(in io.Reader) ([]ObjMesh, []string, error) {
 	scanner := bufio.NewScanner(in)
+	scanner.Buffer(make([]byte, 0, bufio.MaxScanTokenSize), maxLineLength)
 
 	readVerts := make([]vector3.Float64, 0)
 	readNormals := make([]vector3.Float64, 0)
